@@ -19,9 +19,9 @@ import (
 
 type tagFact struct {
 	where, name, gotype string
-	found              bool
-	code               uint64
-	dtype              string
+	found               bool
+	code                uint64
+	dtype               string
 }
 
 type avpFact struct {
